@@ -386,6 +386,8 @@ func (s *sim) step(st Step) error {
 		return s.runSimulate(st)
 	case "Pass": // C18 (x_frame.go)
 		return s.runPass()
+	case "CapacityBuffer": // C18 (x_frame.go)
+		return s.runCapacityBuffer(st)
 	default:
 		return fmt.Errorf("unknown step %q", st.A)
 	}
